@@ -6,6 +6,7 @@ import (
 	"bytes"
 	"crypto"
 	"crypto/x509"
+	"encoding/json"
 	"fmt"
 	"os"
 	"path/filepath"
@@ -29,8 +30,12 @@ type State struct {
 // Component is one reloadable key-store user.
 type Component interface {
 	OnChanged(logger zerolog.Logger) // the real ChangeListener method
+	Load() error                     // the component's own load()/init(), called once more to learn its verdict on the file
 	State() State
 }
+
+// PathClearer is implemented by components whose configured path can be emptied (tlsx).
+type PathClearer interface{ ClearPath() }
 
 type stateJSON struct {
 	Kid   string      `json:"kid"`
@@ -74,7 +79,8 @@ type ReloadCase struct {
 }
 
 type reloadObs struct {
-	Outcome string    `json:"outcome"` // reloaded kept exit:<site>
+	Log     string    `json:"log,omitempty"` // level of the line OnChanged logged: warn info none
+	Outcome string    `json:"outcome"`       // reloaded kept stale exit:<site>
 	Msg     string    `json:"msg,omitempty"`
 	Pre     stateJSON `json:"pre"`
 	Post    stateJSON `json:"post"`
@@ -223,20 +229,48 @@ func RunReload(t *testing.T, comp string, create func(path, keyID, password stri
 
 		c.New.WriteTo(path)
 
+		if pc, ok := cmp.(PathClearer); ok && r.Chance(3) {
+			pc.ClearPath()
+			c.NoPath = true
+		}
+
 		var logbuf bytes.Buffer
 
 		site, msg := Catch(func() { cmp.OnChanged(zerolog.New(&logbuf)) })
 		o := reloadObs{Pre: pre, Post: cmp.State().intern(in), Msg: msg}
 
+		// the verdict on the file is the return value of the component's own load, asked once more; the log
+		// line OnChanged wrote is a separate, tolerant observable
+		var lerr error
+
+		psite, pmsg := "", ""
+		if site == "" {
+			psite, pmsg = Catch(func() { lerr = cmp.Load() })
+		}
+
+		after, _ := json.Marshal(cmp.State().intern(in))
+		before, _ := json.Marshal(o.Post)
+
+		switch {
+		case strings.Contains(logbuf.String(), `"level":"warn"`):
+			o.Log = "warn"
+		case strings.Contains(logbuf.String(), `"level":"info"`):
+			o.Log = "info"
+		default:
+			o.Log = "none"
+		}
+
 		switch {
 		case site != "":
 			o.Outcome = "exit:" + site
-		case strings.Contains(logbuf.String(), `"level":"warn"`):
+		case psite != "":
+			o.Outcome, o.Msg, site = "exit:"+psite, pmsg, psite
+		case lerr != nil:
 			o.Outcome = "kept"
-		case strings.Contains(logbuf.String(), `"level":"info"`):
-			o.Outcome = "reloaded"
+		case string(after) != string(before):
+			o.Outcome = "stale" // load accepts the file but OnChanged had not put it into effect
 		default:
-			o.Outcome = "silent"
+			o.Outcome = "reloaded"
 		}
 
 		file := "(Some " + c.Oracle.CoqBlocks() + ")"
@@ -255,7 +289,15 @@ func RunReload(t *testing.T, comp string, create func(path, keyID, password stri
 			out = "(Kept " + o.Post.Coq() + ")"
 		}
 
-		tags := append(c.Oracle.Tags(), "comp="+comp, "mut="+c.New.Mut, "out="+strings.SplitN(o.Outcome, ":", 2)[0])
+		tags := append(c.Oracle.Tags(), "comp="+comp, "mut="+c.New.Mut, "out="+strings.SplitN(o.Outcome, ":", 2)[0], "log="+o.Log)
+		if (o.Outcome == "reloaded") != (o.Log == "info") && site == "" {
+			tags = append(tags, "log-differs-from-outcome")
+		}
+
+		if c.NoPath {
+			tags = append(tags, "no-path")
+		}
+
 		if c.KeyID != "" {
 			tags = append(tags, "key_id")
 		}
@@ -270,7 +312,7 @@ func RunReload(t *testing.T, comp string, create func(path, keyID, password stri
 
 		w.Put(vf.Obs{
 			I: i, Stream: comp, In: c, Out: o,
-			Coq: vf.CoqApp("rc", compCoq(comp), vf.CoqBool(false), vf.CoqStr(c.KeyID), file,
+			Coq: vf.CoqApp("rc", compCoq(comp), vf.CoqBool(c.NoPath), vf.CoqStr(c.KeyID), file, vf.CoqBool(c.Oracle.Trailing),
 				c.Oracle.CoqChainOK(), c.Oracle.CoqUsable(), pre.Coq(), out),
 			// non-trivial: the new content differs from a plainly valid store, i.e. the reload fails or exits,
 			// or it succeeds with more than one block
